@@ -2,7 +2,7 @@
 # selftest.sh — framework QA (not a registered check): apply every benign patch under selftest/benign
 # to /repo, run the affected property checks, expect exit 0 (or 2), never 1; then undo the patch.
 cd /verif; bad=0
-declare -A PROPS=( [01]="C17" [02]="C15" [03]="C14" [04]="C12" [05]="C14" [06]="C15" [07]="C09" [08]="C05" [09]="C17" [10]="C16" [11]="C12" [12]="C07" [13]="C18" [14]="C12" [15]="C08" [16]="C16" [17]="C15" [18]="C11" [19]="C05" [20]="C13" [21]="C06 C05" [22]="C10 C12" [23]="C10" [24]="C08 C13 C17" [25]="C09 C07 C16" )
+declare -A PROPS=( [01]="C17" [02]="C15" [03]="C14" [04]="C12" [05]="C14" [06]="C15" [07]="C09" [08]="C05" [09]="C17" [10]="C16" [11]="C12" [12]="C07" [13]="C18" [14]="C12" [15]="C08" [16]="C16" [17]="C15" [18]="C11" [19]="C05" [20]="C13" [21]="C06 C05" [22]="C10 C12" [23]="C10" [24]="C08 C13 C17" [25]="C09 C07 C16" [26]="C14" )
 for f in selftest/benign/*.diff; do
   n=$(basename $f | cut -c1-2)
   git -C /repo apply $PWD/$f || { echo "$f: does not apply"; bad=1; continue; }
